@@ -38,7 +38,13 @@ def o_spurmrot(a):
     phic = spurmrot.correct_phi_stokes(phi, qs, us)
     eq, eu = SA.stokes_q(phic), SA.stokes_u(phic, None)
     err = float(max(numpy.abs(q - eq).max(), numpy.abs(u - eu).max()))
-    return err < 1e-12, dict(max_abs_err=err)
+    # the amplitude / phase flavour of the angle-space correction, at the amplitude and phase of the same spurious modulation — with either sign of
+    # the amplitude (A, φ_s) and (−A, φ_s + π/2) describe the same (q_s, u_s)
+    amp, ph = numpy.hypot(qs, us), 0.5 * numpy.arctan2(us, qs)
+    sgn = numpy.where(numpy.arange(len(phi)) % 2 == 0, 1., -1.)
+    pa = spurmrot.correct_phi_ampl(phi, sgn * amp, ph + numpy.where(sgn < 0, 0.5 * math.pi, 0.))
+    err_ampl = float(max(numpy.abs(SA.stokes_q(pa) - eq).max(), numpy.abs(SA.stokes_u(pa, None) - eu).max()))
+    return err < 1e-12 and err_ampl < 1e-11, dict(max_abs_err=err, max_abs_err_amplitude_flavour=err_ampl)
 
 
 def o_detphi(a):
